@@ -43,13 +43,15 @@ def setLine (j : Json) : String :=
     let pre := ints j "pre"
     let impl := parseObs j
     let rank := rankerOf (str j "rk")
-    let m := SetM.step rank pre op
+    -- the second operand of a class function may carry its own collator
+    let rank2 := if has j "rk2" then rankerOf (str j "rk2") else rank
+    let m := SetM.step2 rank rank2 pre op
     let name := str j "op"
     let pid := if isAlgebra name then "C15" else "C02"
     -- precondition of the specification: the state (and the operands) are strictly ascending
     let okPre := SetM.strictAsc rank pre &&
-      (!isAlgebra name || (SetM.strictAsc rank (ints j "vs") && SetM.strictAsc rank (ints j "ws")))
-    let specOk := okPre && SetM.allowed rank pre op impl &&
+      (!isAlgebra name || (SetM.strictAsc rank (ints j "vs") && SetM.strictAsc rank2 (ints j "ws")))
+    let specOk := okPre && SetM.allowed2 rank rank2 pre op impl &&
       (!isAlgebra name || (ints j "aft_a" == ints j "vs" && ints j "aft_b" == ints j "ws" && bool j "indep"))
     let sig := if !okPre then s!"{pid}/{name}/unsorted-state" else s!"{pid}/{name}"
     -- stored representatives of rank-equal values may legitimately differ only through the
